@@ -1,6 +1,9 @@
 import H3.Lemmas.ReqRecv
 import H3.Lemmas.ReqLift
+import H3.Lemmas.ReqPoll
+import H3.Lemmas.ReqSplit
 import H3.Lemmas.FrameRefSpec
+import H3.Drv.C03
 /-! # C03 — request streams accept exactly the RFC 9114 §4.1 frame sequences
 
 Model: `H3.ReqRecv` (the request layer of `connection.rs`, `server/request.rs`,
@@ -13,8 +16,14 @@ covered), every ending (`fin`, `truncated` = FIN inside a frame, `reset c`, `ope
 documented call pattern (`documented`: head; `recv_data` until it answers something else than
 data; `recv_trailers` if that was `None`).  For `reset` the sequence is the part of the stream
 the frame layer delivers before it notices the reset (any prefix: the quantifier covers them
-all).  `HdrOk`: the HEADERS blocks decode to well-formed messages (C11/C12 decide that).
-`TokWF`: pieces are non-empty and do not exceed the declared length. -/
+all).  `HdrsOk` (positional): the FIRST HEADERS block of the sequence decodes to a well-formed
+message head, the SECOND one to a well-formed trailer section (C11/C12 decide that); nothing is
+asked of a block in the other position — a real head carries `:method`/`:status`, which no trailer
+section may, so no block is acceptable in both — and nothing of a third HEADERS frame, which is
+refused undecoded.  (Until the audit the hypothesis was `HdrOk` for every token — both positions at
+once — which no block satisfies under a faithful oracle; `hdrsOk_of_hdrOk`: it implies `HdrsOk`, so
+every theorem below implies its former self.)  `TokWF`: pieces are non-empty and do not exceed the
+declared length. -/
 namespace H3.Props.C03
 open H3.ReqRecv H3.Frame H3.Gen.Consts
 open H3.Spec.ReqSeq hiding Bytes
@@ -29,18 +38,20 @@ def answers (toks : List Tok) (e : Ending) : Nat := (compile toks e).1.length
     open); end of body only at trailers or FIN; trailers iff present; everything outside the
     language = connection error H3_FRAME_UNEXPECTED; FIN before HEADERS = stream refused. -/
 theorem C03_server_recv_spec (H : Hdr) (toks : List Tok) (e : Ending) (fuel : Nat)
-    (hwf : ∀ tok ∈ toks, TokWF tok ∧ HdrOk H tok) (hfuel : answers toks e + 2 ≤ fuel) :
+    (hwf : ∀ tok ∈ toks, TokWF tok) (hH : HdrsOk H toks) (hfuel : answers toks e + 2 ≤ fuel) :
     (spec .server (toks.map kind) (stopOf e)).accepts
       (observe (documentedFrames .server H fuel toks e)) :=
-  recv_spec .server H e toks fuel hwf hfuel
+  recv_spec .server H e toks fuel hwf hH hfuel
 
-/-- Client receive side: the same for `recv_response`. (FIN before HEADERS and PUSH_PROMISE are
-    left open by the property: the recogniser accepts anything there, R-03.) -/
+/-- Client receive side: the same for `recv_response`.  (FIN before HEADERS and PUSH_PROMISE sent
+    to a client are not fixed by the property text, R-03: the recogniser lists the alternatives the
+    RFC allows — `clientNoResponse`; connection error H3_FRAME_UNEXPECTED or H3_ID_ERROR — and the
+    model's answer, H3_FRAME_UNEXPECTED in both cases, is among them.) -/
 theorem C03_client_recv_spec (H : Hdr) (toks : List Tok) (e : Ending) (fuel : Nat)
-    (hwf : ∀ tok ∈ toks, TokWF tok ∧ HdrOk H tok) (hfuel : answers toks e + 2 ≤ fuel) :
+    (hwf : ∀ tok ∈ toks, TokWF tok) (hH : HdrsOk H toks) (hfuel : answers toks e + 2 ≤ fuel) :
     (spec .client (toks.map kind) (stopOf e)).accepts
       (observe (documentedFrames .client H fuel toks e)) :=
-  recv_spec .client H e toks fuel hwf hfuel
+  recv_spec .client H e toks fuel hwf hH hfuel
 
 /-! non-vacuity: a message with grease, an empty DATA frame in the middle, a payload handed out in
     two pieces and trailers; the D-03 witness `HEADERS DATA(0) DATA(5)`; sequences outside the
@@ -64,7 +75,73 @@ example : observe (documentedFrames .server allOk 20 [.headers [1], .data 4 [[8,
     { calls := [.head [1], .body [8, 9], .connError 262], connError := some 262 } := by decide
 example : observe (documentedFrames .server allOk 20 [.headers [1], .headers [2]] .open_) =
     { calls := [.head [1], .body [], .bodyEnd, .pending] } := by decide
-example : spec .client [.U] .fin = .any := by decide
+-- R-03 (client side): explicit alternatives, each of them a failure of the call — never "anything"
+example : spec .client [.U] .fin = clientNoResponse := by decide
+example : observe (documentedFrames .client allOk 20 [.unknown 0x21 []] .fin) =
+    { calls := [.streamError 270] } := by decide
+example : spec .client [.H [1], .P, .D [5]] .fin =
+    .oneOf [{ calls := [.head [1], .body [], .connError 0x105], connError := some 0x105 },
+            { calls := [.head [1], .body [], .connError 0x108], connError := some 0x108 }] := by decide
+example : ∀ o, (spec .client [.U] .fin).accepts o → ∃ c, o.calls = [.connError c] ∨ o.calls = [.streamError c] := by
+  intro o ho
+  simp only [spec, expected, atStop, clientNoResponse, Expect.accepts, List.flatMap_cons, List.flatMap_nil,
+    List.append_nil, List.cons_append, List.nil_append, List.mem_cons, List.not_mem_nil, or_false] at ho
+  rcases ho with rfl | rfl | rfl | rfl | rfl | rfl | rfl <;>
+    first | exact ⟨_, Or.inl rfl⟩ | exact ⟨_, Or.inr rfl⟩
+
+/-! non-vacuity with a FAITHFUL header oracle: the correspondence driver's own `hdrFor role`
+    (`lean/H3/Drv/C03.lean`: what the real `qpack::decode_stateless` + `Header::try_from` +
+    `into_request_parts` / `into_response_parts` / `into_fields` make of the five blocks the generator
+    uses).  It accepts the request block only as a server-side head, the response block only as a
+    client-side head, the trailer block only as trailers: NO block is acceptable in both positions, so
+    the old hypothesis (`HdrOk` for every token) fails for every sequence with a HEADERS frame, while
+    the positional one holds for real messages — with trailers. -/
+section Faithful
+open H3.Drv.C03 (hdrFor blkRequest blkResponse blkTrailer blkBadQpack)
+
+example (role : Role) (b : Bytes) : ¬ HdrOk (hdrFor role) (.headers b) := by
+  rintro ⟨h1, h2⟩
+  simp only [hdrFor] at h1 h2
+  by_cases hq : (b == blkBadQpack) = true
+  · simp [hq] at h1
+  · simp only [hq, Bool.false_eq_true, if_false] at h1 h2
+    have ht : b = blkTrailer := by
+      by_cases hb : (b == blkTrailer) = true
+      · simpa using hb
+      · simp [hb] at h2
+    subst ht
+    cases role <;> simp [blkTrailer, blkRequest, blkResponse] at h1
+
+/-- a request with grease, an empty DATA frame, a payload in two pieces, trailers, grease -/
+def toksReq : List Tok :=
+  [.unknown 0x21 [], .headers blkRequest, .data 0 [], .data 3 [[10], [11, 12]], .unknown 0x40 [9],
+   .headers blkTrailer, .unknown 0x21 []]
+def toksResp : List Tok :=
+  [.headers blkResponse, .data 2 [[8, 9]], .headers blkTrailer]
+
+example : ¬ ∀ tok ∈ toksReq, HdrOk (hdrFor .server) tok := fun h => by
+  have := (h (.headers blkRequest) (by simp [toksReq])).2
+  revert this; decide
+example : HdrsOk (hdrFor .server) toksReq ∧ HdrsOk (hdrFor .client) toksResp := by decide
+-- the blocks in the wrong position are NOT acceptable: the hypothesis is really positional
+example : ¬ HdrsOk (hdrFor .server) [.headers blkTrailer, .headers blkRequest] := by decide
+example : ¬ HdrsOk (hdrFor .client) toksReq := by decide
+
+example : observe (documentedFrames .server (hdrFor .server) 20 toksReq .fin) =
+    { calls := [.head blkRequest, .body [10, 11, 12], .bodyEnd, .trailers blkTrailer] } := by decide
+example : (spec .server (toksReq.map kind) .fin).accepts
+    (observe (documentedFrames .server (hdrFor .server) 20 toksReq .fin)) :=
+  C03_server_recv_spec (hdrFor .server) toksReq .fin 20 (by simp [toksReq, TokWF]) (by decide) (by decide)
+example : (spec .client (toksResp.map kind) (.reset 7)).accepts
+    (observe (documentedFrames .client (hdrFor .client) 20 toksResp (.reset 7))) :=
+  C03_client_recv_spec (hdrFor .client) toksResp (.reset 7) 20 (by simp [toksResp, TokWF]) (by decide) (by decide)
+example : spec .client (toksResp.map kind) (.reset 7) =
+    .oneOf [{ calls := [.head blkResponse, .body [8, 9], .bodyEnd, .resetBy 7] }] := by decide
+-- a third HEADERS frame is refused undecoded: nothing is asked of its block
+example : HdrsOk (hdrFor .client) (toksResp ++ [.headers blkBadQpack]) := by decide
+example : (observe (documentedFrames .client (hdrFor .client) 20 (toksResp ++ [.headers blkBadQpack]) .fin)).connError =
+    some 261 := by decide
+end Faithful
 
 /-! ### the clauses of the property, spelled out -/
 
@@ -121,6 +198,48 @@ private theorem expected_body (side : Side) (h : Bytes) (ks : List K) (stop : St
       rw [ih (acc ++ ps.flatten) hr, List.append_assoc]
     | _ => simp [isUD] at ht
 
+private theorem hdrBlocks_append : ∀ a b : List K, hdrBlocks (a ++ b) = hdrBlocks a ++ hdrBlocks b := by
+  intro a
+  induction a with
+  | nil => intro b; rfl
+  | cons k r ih => intro b; cases k <;> simp [hdrBlocks, ih]
+
+private theorem hdrBlocks_noH : ∀ l : List Tok, (∀ t ∈ l, ∀ b, t ≠ .headers b) → hdrBlocks (l.map kind) = [] := by
+  intro l
+  induction l with
+  | nil => intro _; rfl
+  | cons t r ih =>
+    intro h
+    have hk := kind_ne_H t (h t (by simp))
+    have hr := ih (fun x hx => h x (by simp [hx]))
+    rw [List.map_cons]
+    cases hkt : kind t with
+    | H b => exact absurd hkt (hk b)
+    | _ => simpa [hdrBlocks] using hr
+
+/-- for a message of the language the positional hypothesis is: the head block is an acceptable
+    head, the trailer block (if any) an acceptable trailer section -/
+theorem hdrsOk_valid (H : Hdr) (pre mid post : List Tok) (h : Bytes) (tr : Option Bytes)
+    (hpre : ∀ t ∈ pre, isU t = true) (hmid : ∀ t ∈ mid, isUD t = true) (hpost : ∀ t ∈ post, isU t = true)
+    (toks : List Tok)
+    (htoks : toks = pre ++ .headers h :: (mid ++ (match tr with | none => [] | some t => .headers t :: post)))
+    (hh : H.head h = .ok) (hT : ∀ t, tr = some t → H.trailer t = .ok) : HdrsOk H toks := by
+  subst htoks
+  have hU : ∀ l : List Tok, (∀ t ∈ l, isU t = true) → ∀ t ∈ l, ∀ b, t ≠ .headers b := by
+    intro l hl t ht b hb; subst hb; simpa [isU] using hl _ ht
+  have hUD : ∀ t ∈ mid, ∀ b, t ≠ .headers b := by
+    intro t ht b hb; subst hb; simpa [isUD] using hmid _ ht
+  unfold HdrsOk
+  rw [hdrsOkK_iff, List.map_append, hdrBlocks_append, hdrBlocks_noH pre (hU pre hpre), List.map_cons,
+    List.map_append]
+  simp only [kind, hdrBlocks, List.nil_append]
+  rw [hdrBlocks_append, hdrBlocks_noH mid hUD, List.nil_append]
+  cases tr with
+  | none => exact ⟨hh, trivial⟩
+  | some t =>
+    simp only [List.map_cons, kind, hdrBlocks]
+    exact ⟨hh, hT t rfl⟩
+
 /-- A message of the language — unknown frames, HEADERS, then DATA frames of any length
     (zero included) and unknown frames, then optionally HEADERS followed by unknown frames — ended
     by FIN is delivered whole, in either role: the head; as body exactly the concatenation of the
@@ -131,12 +250,14 @@ theorem C03_valid_message_delivered (role : Role) (H : Hdr) (pre mid post : List
     (hpre : ∀ t ∈ pre, isU t = true) (hmid : ∀ t ∈ mid, isUD t = true) (hpost : ∀ t ∈ post, isU t = true)
     (toks : List Tok)
     (htoks : toks = pre ++ .headers h :: (mid ++ (match tr with | none => [] | some t => .headers t :: post)))
-    (hwf : ∀ tok ∈ toks, TokWF tok ∧ HdrOk H tok) (hfuel : answers toks .fin + 2 ≤ fuel) :
+    (hwf : ∀ tok ∈ toks, TokWF tok) (hh : H.head h = .ok) (hT : ∀ t, tr = some t → H.trailer t = .ok)
+    (hfuel : answers toks .fin + 2 ≤ fuel) :
     observe (documentedFrames role H fuel toks .fin) =
       { calls := [.head h, .body (payloads mid), .bodyEnd,
                   (match tr with | none => .noTrailers | some t => .trailers t)]
         connError := none, streamReset := none } := by
-  have hacc := recv_spec role H .fin toks fuel hwf hfuel
+  have hHs : HdrsOk H toks := hdrsOk_valid H pre mid post h tr hpre hmid hpost toks htoks hh hT
+  have hacc := recv_spec role H .fin toks fuel hwf hHs hfuel
   subst htoks
   rw [List.map_append, expected_skip_unknown _ _ _ _ pre hpre, List.map_cons] at hacc
   simp only [kind, expected, List.map_append] at hacc
@@ -158,6 +279,19 @@ example : observe (documentedFrames .client allOk 30 toks₁ .fin) =
     { calls := [.head [1, 2], .body (payloads [.data 0 [], .data 3 [[10], [11, 12]], .unknown 0x40 [9]]),
                 .bodyEnd, .trailers [7]] } := by decide
 
+-- with the driver's faithful oracle: a request with trailers (the oracle is asked about the request
+-- block as a head and about the trailer block as trailers, nothing else)
+example : observe (documentedFrames .server (H3.Drv.C03.hdrFor .server) 30 toksReq .fin) =
+    { calls := [.head H3.Drv.C03.blkRequest,
+                .body (payloads [.data 0 [], .data 3 [[10], [11, 12]], .unknown 0x40 [9]]), .bodyEnd,
+                .trailers H3.Drv.C03.blkTrailer]
+      connError := none, streamReset := none } :=
+  C03_valid_message_delivered .server (H3.Drv.C03.hdrFor .server) [.unknown 0x21 []]
+    [.data 0 [], .data 3 [[10], [11, 12]], .unknown 0x40 [9]] [.unknown 0x21 []] H3.Drv.C03.blkRequest
+    (some H3.Drv.C03.blkTrailer) 30 (by simp [isU]) (by decide) (by simp [isU]) toksReq rfl
+    (by simp [toksReq, TokWF]) (by decide)
+    (by intro t ht; simp only [Option.some.injEq] at ht; subst ht; decide) (by decide)
+
 /-- the recogniser meets a frame that can only be answered with H3_FRAME_UNEXPECTED -/
 def violates (side : Side) : Phase → List K → Bool
   | _, [] => false
@@ -166,6 +300,8 @@ def violates (side : Side) : Phase → List K → Bool
   | _, .X :: _ => true
   | _, .M :: _ => false
   | _, .S :: _ => false
+  | _, .W :: _ => false
+  | _, .Wpart :: _ => false
   | _, .P :: _ => side == .server
   | .start, .H b :: r => violates side (.body b []) r
   | .start, .D _ :: _ => true
@@ -201,12 +337,12 @@ private theorem violates_expected (side : Side) (stop : Stop) :
     meets the frame fails with it, it is what the error cell holds, the stream is not reset —
     whatever follows the offending frame and however the stream ends. -/
 theorem C03_invalid_sequence_frame_unexpected (role : Role) (H : Hdr) (toks : List Tok) (e : Ending)
-    (fuel : Nat) (hwf : ∀ tok ∈ toks, TokWF tok ∧ HdrOk H tok) (hfuel : answers toks e + 2 ≤ fuel)
+    (fuel : Nat) (hwf : ∀ tok ∈ toks, TokWF tok) (hH : HdrsOk H toks) (hfuel : answers toks e + 2 ≤ fuel)
     (hbad : violates (sideOf role) .start (toks.map kind) = true) :
     let o := observe (documentedFrames role H fuel toks e)
     o.connError = some CODE_H3_FRAME_UNEXPECTED ∧ o.streamReset = none ∧
     o.calls.getLast? = some (.connError CODE_H3_FRAME_UNEXPECTED) :=
-  violates_expected (sideOf role) (stopOf e) _ _ hbad _ (recv_spec role H e toks fuel hwf hfuel)
+  violates_expected (sideOf role) (stopOf e) _ _ hbad _ (recv_spec role H e toks fuel hwf hH hfuel)
 
 example : violates .server .start ([Tok.headers [1], .data 1 [[5]], .goaway 0, .headers [2]].map kind) = true := by decide
 example : violates .server .start ([Tok.headers [1], .pushPromise 0 []].map kind) = true := by decide
@@ -290,7 +426,7 @@ example : (pollRecvTrailers tokSrc allOk
 theorem C03_lifted_to_chunks {σ : Type} (S : Src σ) (R : σ → TS → Prop) (sim : FrameSim S tokSrc R)
     (role : Role) (H : Hdr) (c : σ) (toks : List Tok) (e : Ending) (fuel : Nat)
     (hR : R c (TS.ofToks toks e))
-    (hwf : ∀ tok ∈ toks, TokWF tok ∧ HdrOk H tok) (hfuel : answers toks e + 2 ≤ fuel) :
+    (hwf : ∀ tok ∈ toks, TokWF tok) (hH : HdrsOk H toks) (hfuel : answers toks e + 2 ≤ fuel) :
     documented role S H fuel { src := c } = documentedFrames role H fuel toks e ∧
     (spec (sideOf role) (toks.map kind) (stopOf e)).accepts
       (observe (documented role S H fuel { src := c })) := by
@@ -299,7 +435,7 @@ theorem C03_lifted_to_chunks {σ : Type} (S : Src σ) (R : σ → TS → Prop) (
       ⟨hR, rfl, rfl⟩ rfl
   refine ⟨h, ?_⟩
   rw [h]
-  exact recv_spec role H e toks fuel hwf hfuel
+  exact recv_spec role H e toks fuel hwf hH hfuel
 
 /-! non-vacuity of the hypothesis: for a concrete transport script (three chunks cutting frame
     headers and a payload, then FIN) the relation "reachable together" between the `FrameStream`
@@ -368,7 +504,7 @@ theorem simS : FrameSim fsSrc tokSrc (RpOf script₁ toksS .fin) :=
 example : (spec .server (toksS.map kind) .fin).accepts
     (observe (documented .server fsSrc allOk 20 { src := ({}, script₁) })) :=
   (C03_lifted_to_chunks fsSrc _ simS .server allOk ({}, script₁) toksS .fin 20 (by decide +kernel)
-    (by simp [toksS, TokWF, HdrOk, allOk]) (by decide)).2
+    (by simp [toksS, TokWF]) (by decide) (by decide)).2
 
 /-- a DATA frame cut short by FIN (FIN read with the frame header): the frame layer hands out
     nothing of the payload, then `UnexpectedEnd`; `is_eos` is true there with data outstanding -/
@@ -381,7 +517,7 @@ theorem simT : FrameSim fsSrc tokSrc (RpOf script₂ toksT .truncated) :=
 example : observe (documented .server fsSrc allOk 20 { src := ({}, script₂) }) =
     { calls := [.head [0xaa], .body [], .connError 262], connError := some 262 } := by
   rw [(C03_lifted_to_chunks fsSrc _ simT .server allOk ({}, script₂) toksT .truncated 20 (by decide +kernel)
-    (by simp [toksT, TokWF, HdrOk, allOk]) (by decide)).1]
+    (by simp [toksT, TokWF]) (by decide) (by decide)).1]
   decide
 
 example : documentedChunks .server allOk script₁ = documentedFrames .server allOk 20 toksS .fin := by
@@ -437,39 +573,41 @@ theorem C03_frame_layer_simulation :
     of non-empty chunks (ANY cutting of the bytes, `Pending` anywhere, FIN / RESET anywhere or
     neither) whose bytes before the first FIN carry no WebTransport header at a frame position
     (`NoRaw`, a decidable condition on the byte string, `C03_noraw_of_framing_spec`) and whose
-    HEADERS blocks decode to well-formed messages (`hH`, as in `C03_server_recv_spec`; the blocks
-    are those the reference automaton finds in these bytes):
-    there is a frame sequence `toks` with ending `e`, well formed and tied to the bytes of the
+    HEADERS blocks are acceptable to the oracle IN THEIR POSITIONS (`hH`: of the blocks the
+    reference automaton finds in these bytes the first is a well-formed head, the second a
+    well-formed trailer section — `HdrsOkK` on the recogniser's input `kindsOf …`):
+    there is a frame sequence `toks` with ending `e`, well formed, with acceptable blocks
+    (`HdrsOk`; its HEADERS frames are HEADERS frames of the bytes) and tied to the bytes of the
     script (`Tied`), such that the documented call pattern over the chunked frame layer —
     `documentedChunks`, and `documented role fsSrc` with any fuel — gives exactly the trace of the
     frame-level model on `toks`/`e`; hence its observed outcome is one the RFC 9114 §4.1 recogniser
     accepts for `toks`.  No simulation hypothesis is left. -/
 theorem C03_lifted_to_chunks_closed (role : Role) (H : Hdr) (sc : List H3.FS.Ev)
     (hsc : ScriptOK sc) (hraw : NoRaw (evBytes (upToFin sc)))
-    (hH : ∀ b, H3.FS.Tok.frame (.headers b) ∈ (run frameDec (.hdr []) (evBytes (upToFin sc))).2 →
-      H.head b = .ok ∧ H.trailer b = .ok) :
-    ∃ toks e, Tied sc toks e ∧ (∀ tok ∈ toks, TokWF tok ∧ HdrOk H tok) ∧
+    (hH : HdrsOkK H .head (kindsOf (run frameDec (.hdr []) (evBytes (upToFin sc))).2)) :
+    ∃ toks e, Tied sc toks e ∧ (∀ tok ∈ toks, TokWF tok) ∧ HdrsOk H toks ∧
+      (∀ b, Tok.headers b ∈ toks →
+        H3.FS.Tok.frame (.headers b) ∈ (run frameDec (.hdr []) (evBytes (upToFin sc))).2) ∧
       documentedChunks role H sc = documentedFrames role H (fsFuel ({}, sc)) toks e ∧
       (spec (sideOf role) (toks.map kind) (stopOf e)).accepts (observe (documentedChunks role H sc)) ∧
       ∀ fuel, documented role fsSrc H fuel { src := ({}, sc) } = documentedFrames role H fuel toks e := by
   obtain ⟨toks, e, hR, hwf, hfuel, hhdr, htied⟩ := lift_exists sc hsc hraw
-  have hok : ∀ tok ∈ toks, TokWF tok ∧ HdrOk H tok := by
-    intro tok htok
-    refine ⟨hwf tok htok, ?_⟩
-    cases tok with
-    | headers b =>
-      obtain ⟨more, hm⟩ := tied_prefix htied
-      exact hH b (by rw [← hm]; exact List.mem_append_left _ (hhdr b htok))
-    | _ => trivial
+  have hok : HdrsOk H toks := tied_hdrsOk H htied hH
+  have hmem : ∀ b, Tok.headers b ∈ toks →
+      H3.FS.Tok.frame (.headers b) ∈ (run frameDec (.hdr []) (evBytes (upToFin sc))).2 := by
+    intro b htok
+    obtain ⟨more, hm⟩ := tied_prefix htied
+    rw [← hm]
+    exact List.mem_append_left _ (hhdr b htok)
   have hdoc : ∀ fuel, documented role fsSrc H fuel { src := ({}, sc) } =
       documentedFrames role H fuel toks e := fun fuel =>
     same_documentedP liftR_sim tokSrc_hdrNoData role H fuel (x := { src := ({}, sc) })
       (y := { src := TS.ofToks toks e }) ⟨fun _ => hR, rfl, rfl⟩ rfl
-  refine ⟨toks, e, htied, hok, hdoc _, ?_, hdoc⟩
+  refine ⟨toks, e, htied, hwf, hok, hmem, hdoc _, ?_, hdoc⟩
   show (spec (sideOf role) (toks.map kind) (stopOf e)).accepts
     (observe (documented role fsSrc H (fsFuel ({}, sc)) { src := ({}, sc) }))
   rw [hdoc]
-  exact recv_spec role H e toks _ hok hfuel
+  exact recv_spec role H e toks _ hwf hok hfuel
 
 /-! non-vacuity of `C03_lifted_to_chunks_closed`: the hypotheses hold for concrete scripts (`NoRaw`
     is decided by evaluating the reference automaton), e.g. `script₁` above, and a script with a `Pending` in the middle, where the documented pattern stops at the
@@ -480,28 +618,32 @@ example : ScriptOK script₁ ∧ NoRaw (evBytes (upToFin script₁)) := by
   simp [script₁] at hb
   rcases hb with rfl | rfl | rfl <;> simp
 
-example : ∃ toks e, Tied script₁ toks e ∧ (∀ tok ∈ toks, TokWF tok ∧ HdrOk allOk tok) ∧
+example : ∃ toks e, Tied script₁ toks e ∧ (∀ tok ∈ toks, TokWF tok) ∧ HdrsOk allOk toks ∧
+    (∀ b, Tok.headers b ∈ toks →
+      H3.FS.Tok.frame (.headers b) ∈ (run frameDec (.hdr []) (evBytes (upToFin script₁))).2) ∧
     documentedChunks .server allOk script₁ = documentedFrames .server allOk (fsFuel ({}, script₁)) toks e ∧
     (spec .server (toks.map kind) (stopOf e)).accepts (observe (documentedChunks .server allOk script₁)) ∧
     ∀ fuel, documented .server fsSrc allOk fuel { src := ({}, script₁) } =
       documentedFrames .server allOk fuel toks e :=
   C03_lifted_to_chunks_closed .server allOk script₁
     (by intro b hb; simp [script₁] at hb; rcases hb with rfl | rfl | rfl <;> simp)
-    (by decide +kernel) (fun _ _ => ⟨rfl, rfl⟩)
+    (by decide +kernel) (by decide +kernel)
 
 def script₃ : List H3.FS.Ev :=
   [.chunk [0x01], .chunk [0x02, 0xaa, 0xbb], .pend, .chunk [0x00, 0x02, 0xc1, 0xc2], .fin]
 
 example : observe (documentedChunks .server allOk script₃) =
     { calls := [.head [0xaa, 0xbb], .body [], .pending] } := by decide +kernel
-example : ∃ toks e, Tied script₃ toks e ∧ (∀ tok ∈ toks, TokWF tok ∧ HdrOk allOk tok) ∧
+example : ∃ toks e, Tied script₃ toks e ∧ (∀ tok ∈ toks, TokWF tok) ∧ HdrsOk allOk toks ∧
+    (∀ b, Tok.headers b ∈ toks →
+      H3.FS.Tok.frame (.headers b) ∈ (run frameDec (.hdr []) (evBytes (upToFin script₃))).2) ∧
     documentedChunks .client allOk script₃ = documentedFrames .client allOk (fsFuel ({}, script₃)) toks e ∧
     (spec .client (toks.map kind) (stopOf e)).accepts (observe (documentedChunks .client allOk script₃)) ∧
     ∀ fuel, documented .client fsSrc allOk fuel { src := ({}, script₃) } =
       documentedFrames .client allOk fuel toks e :=
   C03_lifted_to_chunks_closed .client allOk script₃
     (by intro b hb; simp [script₃] at hb; rcases hb with rfl | rfl | rfl <;> simp)
-    (by decide +kernel) (fun _ _ => ⟨rfl, rfl⟩)
+    (by decide +kernel) (by decide +kernel)
 -- a WebTransport header at a frame position is what `NoRaw` excludes
 example : ¬ NoRaw [0x01, 0x00, 0x40, 0x41, 0x04, 0xaa] := by decide +kernel
 
@@ -518,22 +660,21 @@ example : NoRaw [0x01, 0x02, 0xaa, 0xbb, 0x00, 0x01, 0xc1] :=
 /-- **The same for every chunking: FIN on a frame boundary.**  The wire bytes `w`, cut into
     non-empty chunks in ANY way (`pre`: chunks only, `evBytes pre = w`), then FIN (whatever the
     script says behind it is never looked at).  If `w` is a sequence of complete frames (the
-    reference automaton stands at a frame boundary; no WebTransport header; the HEADERS blocks found
-    in `w` decode to well-formed messages) then the observed outcome of the documented pattern over
+    reference automaton stands at a frame boundary; no WebTransport header; of the HEADERS blocks
+    found in `w` the first is an acceptable head and the second an acceptable trailer section) then the observed outcome of the documented pattern over
     the chunked frame layer is one the RFC 9114 §4.1 recogniser accepts for the frame kinds read
     off the reference automaton's tokens over `w` (`kindsOf`), ended by FIN.  The right-hand side
     mentions neither the chunking nor the frame layer: the outcome (head, body bytes, end of body,
     trailers, or the connection error / stream refusal) is a function of the bytes alone. -/
 theorem C03_chunked_outcome_fin (role : Role) (H : Hdr) (pre post : List H3.FS.Ev)
     (hpre : OnlyChunks pre) (hsc : ScriptOK (pre ++ .fin :: post)) (hraw : NoRaw (evBytes pre))
-    (hH : ∀ b, H3.FS.Tok.frame (.headers b) ∈ (run frameDec (.hdr []) (evBytes pre)).2 →
-      H.head b = .ok ∧ H.trailer b = .ok)
+    (hH : HdrsOkK H .head (kindsOf (run frameDec (.hdr []) (evBytes pre)).2))
     (hclean : (run frameDec (.hdr []) (evBytes pre)).1 = .hdr []) :
     (spec (sideOf role) (kindsOf (run frameDec (.hdr []) (evBytes pre)).2) .fin).accepts
       (observe (documentedChunks role H (pre ++ .fin :: post))) := by
   have hfin : H3.FS.Ev.fin ∉ pre := fun hm => by obtain ⟨b, hb⟩ := hpre _ hm; cases hb
   have hup : upToFin (pre ++ .fin :: post) = pre := H3.FS.upToFin_fin pre post hfin
-  obtain ⟨toks, e, htied, _, _, hacc, _⟩ :=
+  obtain ⟨toks, e, htied, _, _, _, _, hacc, _⟩ :=
     C03_lifted_to_chunks_closed role H (pre ++ .fin :: post) hsc (by rw [hup]; exact hraw)
       (by rw [hup]; exact hH)
   obtain ⟨he, hk⟩ := tied_fin_exact hpre htied hclean
@@ -548,8 +689,7 @@ theorem C03_chunked_outcome_fin (role : Role) (H : Hdr) (pre post : List H3.FS.E
     progress is pending. -/
 theorem C03_chunked_outcome_open (role : Role) (H : Hdr) (sc : List H3.FS.Ev)
     (hch : OnlyChunks sc) (hsc : ScriptOK sc) (hraw : NoRaw (evBytes sc))
-    (hH : ∀ b, H3.FS.Tok.frame (.headers b) ∈ (run frameDec (.hdr []) (evBytes sc)).2 →
-      H.head b = .ok ∧ H.trailer b = .ok)
+    (hH : HdrsOkK H .head (kindsOf (run frameDec (.hdr []) (evBytes sc)).2))
     (hlive : (run frameDec (.hdr []) (evBytes sc)).1 ≠ .dead) :
     (spec (sideOf role) (kindsOf (run frameDec (.hdr []) (evBytes sc)).2) .open_).accepts
       (observe (documentedChunks role H sc)) := by
@@ -557,7 +697,7 @@ theorem C03_chunked_outcome_open (role : Role) (H : Hdr) (sc : List H3.FS.Ev)
   have hup : upToFin sc = sc := by
     have := H3.FS.upToFin_append_of_not_mem sc [] hfin
     simpa [upToFin] using this
-  obtain ⟨toks, e, htied, _, _, hacc, _⟩ :=
+  obtain ⟨toks, e, htied, _, _, _, _, hacc, _⟩ :=
     C03_lifted_to_chunks_closed role H sc hsc (by rw [hup]; exact hraw) (by rw [hup]; exact hH)
   obtain ⟨he, hk⟩ := tied_open_exact hch htied hlive
   rw [he, hk] at hacc
@@ -587,7 +727,7 @@ example (post : List H3.FS.Ev) (hpost : ScriptOK post) :
       · simp
       · simp
       · exact hpost b hb)
-    (by decide +kernel) (fun _ _ => ⟨rfl, rfl⟩) (by decide +kernel)
+    (by decide +kernel) (by decide +kernel) (by decide +kernel)
 example : observe (documentedChunks .server allOk
     [.chunk [0x01], .chunk [0x02], .chunk [0xaa, 0xbb, 0x00, 0x00, 0x00], .chunk [0x02, 0xc1, 0xc2, 0x21], .chunk [0x00],
       .fin]) = { calls := [.head [0xaa, 0xbb], .body [0xc1, 0xc2], .bodyEnd, .noTrailers] } := by
@@ -600,7 +740,296 @@ example : (spec .client (kindsOf (run frameDec (.hdr []) (wire₁.take 9)).2) .o
   C03_chunked_outcome_open .client allOk [.chunk [0x01, 0x02], .chunk [0xaa, 0xbb, 0x00, 0x00, 0x00, 0x02, 0xc1]]
     (by intro ev hev; simp at hev; rcases hev with rfl | rfl <;> exact ⟨_, rfl⟩)
     (by intro b hb; simp at hb; rcases hb with rfl | rfl <;> simp)
-    (by decide +kernel) (fun _ _ => ⟨rfl, rfl⟩) (by decide +kernel)
+    (by decide +kernel) (by decide +kernel) (by decide +kernel)
+
+/-! the same with the driver's faithful oracle and a request WITH trailers on the wire: HEADERS
+    (the request block), DATA(2), HEADERS (the trailer block), a grease frame — cut in three places -/
+def wireReq : List Nat :=
+  [0x01, 0x0d] ++ H3.Drv.C03.blkRequest ++ [0x00, 0x02, 0xc1, 0xc2] ++ [0x01, 0x06] ++ H3.Drv.C03.blkTrailer ++
+    [0x21, 0x00]
+def cutReq : List H3.FS.Ev := [.chunk (wireReq.take 5), .chunk ((wireReq.drop 5).take 13), .chunk (wireReq.drop 18)]
+
+example : evBytes cutReq = wireReq := by decide +kernel
+example : spec .server (kindsOf (run frameDec (.hdr []) (evBytes cutReq)).2) .fin =
+    .oneOf [{ calls := [.head H3.Drv.C03.blkRequest, .body [0xc1, 0xc2], .bodyEnd, .trailers H3.Drv.C03.blkTrailer] }] := by
+  decide +kernel
+example : (spec .server (kindsOf (run frameDec (.hdr []) (evBytes cutReq)).2) .fin).accepts
+    (observe (documentedChunks .server (H3.Drv.C03.hdrFor .server) (cutReq ++ .fin :: []))) :=
+  C03_chunked_outcome_fin .server (H3.Drv.C03.hdrFor .server) cutReq []
+    (by decide +kernel) (by decide +kernel) (by decide +kernel) (by decide +kernel) (by decide +kernel)
+-- the client's oracle refuses the request block as a head: the hypothesis fails, as it should
+example : ¬ HdrsOkK (H3.Drv.C03.hdrFor .client) .head (kindsOf (run frameDec (.hdr []) (evBytes cutReq)).2) := by
+  decide +kernel
+
+/-! ## Re-polling: every schedule of deliveries and polls
+
+`documented` / `documentedChunks` stop at the first call that answers `Pending`, so the theorems
+above say what the application has been given up to that point.  A real task is polled again when
+more has arrived.  In the `FrameStream` model a schedule of deliveries and polls is a script with
+`pend` events anywhere: a `pend` is a poll of the transport that finds nothing new (the model
+answers `Pending` there exactly as on an exhausted script: `C03_pend_is_empty_poll`) and the next
+poll finds what has been delivered meanwhile.  `documentedPolledChunks role H sc` runs the
+documented pattern over such a script with EVERY call polled again while it answers `Pending` and
+the script has events left (`documentedR`, `retry`): the re-poll starts the call over from its
+first line — `poll_recv_data` re-enters its loop, `poll_recv_trailers` finds the trailers it saved —
+with whatever the previous poll left in the stream object.  A `Pending` in the resulting trace is
+the last word: nothing more will ever arrive.
+
+Proof (`Lemmas/ReqRetry.lean`, `Lemmas/ReqPoll.lean`, `Lemmas/FrameStreamPend.lean`): (1) for any
+frame layer with inert `Pending` answers (`PendLaws`; `fsLaws` for the model) re-polling a call is
+ONE poll of the call over the frame layer whose `poll_next`/`poll_data` wait (`retry_pollHead`,
+`retry_pollRecvData`, `retry_pollRecvTrailers`, `documentedR_eq`); (2) the waiting model answers like
+the token source holding its future answers (`FutS`, `futS_exists` by the C02 invariant and gA2's
+measure `mu`, `liftRS_sim : FrameSimP waitSrc tokSrc LiftRS`), so `same_documentedP` and `recv_spec`
+apply as they do for the one-shot pattern; (3) the ending `open_` now means "script used up", which
+makes the frame sequence a function of the bytes for FIN / still-open streams whatever the
+schedule (`tiedS_fin_exact`, `tiedS_open_exact`). -/
+
+open H3.ReqRecv (documentedPolledChunks NoEnd TiedS)
+
+/-- a `pend` event is a poll that finds nothing new: the model answers exactly as it does on an
+    exhausted script (same answer, same state) -/
+theorem C03_pend_is_empty_poll (s : H3.FS.St) (r : List H3.FS.Ev) :
+    (H3.FS.pollNext frameDec s (.pend :: r)).1 = (H3.FS.pollNext frameDec s []).1 ∧
+    (H3.FS.pollNext frameDec s (.pend :: r)).2.1 = (H3.FS.pollNext frameDec s []).2.1 ∧
+    (H3.FS.pollData (F := Frame) (E := FrameErr) s (.pend :: r)).1 =
+      (H3.FS.pollData (F := Frame) (E := FrameErr) s []).1 ∧
+    (H3.FS.pollData (F := Frame) (E := FrameErr) s (.pend :: r)).2.1 =
+      (H3.FS.pollData (F := Frame) (E := FrameErr) s []).2.1 := by
+  have hnext : (H3.FS.pollNextLoop frameDec s (.pend :: r)).1 = (H3.FS.pollNextLoop frameDec s []).1 ∧
+      (H3.FS.pollNextLoop frameDec s (.pend :: r)).2.1 = (H3.FS.pollNextLoop frameDec s []).2.1 := by
+    rw [H3.FS.pollNextLoop, H3.FS.pollNextLoop]
+    by_cases he : s.eos = true
+    · rw [if_pos he, if_pos he]
+      cases H3.FS.afterRecv frameDec s .eos with
+      | none => exact ⟨rfl, rfl⟩
+      | some p => exact ⟨rfl, rfl⟩
+    · rw [if_neg he, if_neg he]
+      cases H3.FS.afterRecv frameDec s .pending with
+      | none => exact ⟨rfl, rfl⟩
+      | some p => exact ⟨rfl, rfl⟩
+  have hdata : (H3.FS.pollData (F := Frame) (E := FrameErr) s (.pend :: r)).1 =
+        (H3.FS.pollData (F := Frame) (E := FrameErr) s []).1 ∧
+      (H3.FS.pollData (F := Frame) (E := FrameErr) s (.pend :: r)).2.1 =
+        (H3.FS.pollData (F := Frame) (E := FrameErr) s []).2.1 := by
+    unfold H3.FS.pollData
+    by_cases h0 : s.remaining = 0
+    · rw [if_pos h0, if_pos h0]
+      exact ⟨rfl, rfl⟩
+    · rw [if_neg h0, if_neg h0]
+      unfold H3.FS.recvForData
+      by_cases he : s.eos = true
+      · rw [if_pos he, if_pos he]
+        simp only
+        cases H3.FS.takeChunk s.remaining s.buf with
+        | mk od buf' =>
+          cases od with
+          | none =>
+            simp only
+            by_cases hm : s.remaining ≠ H3.FS.USIZE_MAX
+            · simp [hm]
+            · simp [hm]
+          | some d => simp only; split <;> exact ⟨rfl, rfl⟩
+      · rw [if_neg he, if_neg he]
+        simp only
+        cases H3.FS.takeChunk s.remaining s.buf with
+        | mk od buf' =>
+          cases od with
+          | none => exact ⟨rfl, rfl⟩
+          | some d => simp only; split <;> exact ⟨rfl, rfl⟩
+  refine ⟨?_, ?_, hdata.1, hdata.2⟩
+  · unfold H3.FS.pollNext
+    split
+    · rfl
+    · exact hnext.1
+  · unfold H3.FS.pollNext
+    split
+    · rfl
+    · exact hnext.2
+
+/-- **Re-polling, every frame sequence, every ending, every schedule.**  For every role, header
+    oracle and transport script `sc` of non-empty chunks — ANY frame sequence, valid or not; ANY
+    cutting; `pend` anywhere = any schedule of deliveries and polls; FIN (on a frame boundary or
+    inside a frame), RESET, or neither, anywhere — without a WebTransport header (`NoRaw`) and whose
+    HEADERS blocks are acceptable in their positions: with every call of the documented pattern
+    polled again while it answers `Pending` and events are left, the trace is exactly that of the
+    frame-level model on a frame sequence `toks`/`e` tied to the bytes of the script (`TiedS`: the
+    frame-layer answers are the reference automaton's tokens over the bytes taken from the
+    transport — all of them for FIN and for a stream still open with the script used up; all but
+    possibly some of the last payload bytes for FIN inside DATA; a prefix for RESET — and the ending
+    `open_` occurs only with the script used up), hence the observed outcome is one the RFC 9114 §4.1
+    recogniser accepts for `toks`. -/
+theorem C03_polled_lifted_closed (role : Role) (H : Hdr) (sc : List H3.FS.Ev)
+    (hsc : ScriptOK sc) (hraw : NoRaw (evBytes (upToFin sc)))
+    (hH : HdrsOkK H .head (kindsOf (run frameDec (.hdr []) (evBytes (upToFin sc))).2)) :
+    ∃ toks e, TiedS sc toks e ∧ (∀ tok ∈ toks, TokWF tok) ∧ HdrsOk H toks ∧
+      documentedPolledChunks role H sc = documentedFrames role H (fsFuel ({}, sc)) toks e ∧
+      (spec (sideOf role) (toks.map kind) (stopOf e)).accepts (observe (documentedPolledChunks role H sc)) := by
+  obtain ⟨toks, e, hR, hwf, hfuel, htied⟩ := liftS_exists sc hsc hraw
+  have hok : HdrsOk H toks := tied_hdrsOk H htied.tied hH
+  have hdoc : documented role waitSrc H (fsFuel ({}, sc)) { src := ({}, sc) } =
+      documentedFrames role H (fsFuel ({}, sc)) toks e :=
+    same_documentedP liftRS_sim tokSrc_hdrNoData role H _ (x := { src := ({}, sc) })
+      (y := { src := TS.ofToks toks e }) ⟨fun _ => hR, rfl, rfl⟩ rfl
+  have hpoll : documentedPolledChunks role H sc = documentedFrames role H (fsFuel ({}, sc)) toks e := by
+    rw [← hdoc]
+    exact documentedR_eq fsLaws role H _ _ _ _ (by simp [flen]) (Nat.le_refl _)
+      (by
+        show ∀ r ∈ (documented role waitSrc H (fsFuel ({}, sc)) { src := ({}, sc) }).body, r ≠ .invalid
+        rw [hdoc]
+        exact documentedFrames_no_invalid role H _ toks e hfuel)
+  refine ⟨toks, e, htied, hwf, hok, hpoll, ?_⟩
+  rw [hpoll]
+  exact recv_spec role H e toks _ hwf hok hfuel
+
+/-- **Re-polling, FIN: the outcome is a function of the bytes.**  The wire bytes `w` — ANY frame
+    sequence, valid or not — cut into non-empty chunks in ANY way, delivered under ANY schedule
+    (`pre`: chunks and `pend`s in any order, `evBytes pre = w`), then FIN, where `w` ends on a
+    frame boundary (`acc = []`) or inside a frame header / a payload other than DATA (`acc ≠ []`,
+    FIN inside a frame): with every call polled again while it answers `Pending`, the observed
+    outcome is one the recogniser accepts for the frame kinds of `w` ended by FIN resp. by FIN
+    inside a frame — the right-hand side of `C03_chunked_outcome_fin`: neither the cutting nor the
+    schedule appears in it. -/
+theorem C03_polled_outcome_fin (role : Role) (H : Hdr) (pre post : List H3.FS.Ev) (acc : H3.FS.Bytes)
+    (hpre : NoEnd pre) (hsc : ScriptOK (pre ++ .fin :: post)) (hraw : NoRaw (evBytes pre))
+    (hH : HdrsOkK H .head (kindsOf (run frameDec (.hdr []) (evBytes pre)).2))
+    (hend : (run frameDec (.hdr []) (evBytes pre)).1 = .hdr acc) :
+    (spec (sideOf role) (kindsOf (run frameDec (.hdr []) (evBytes pre)).2)
+        (if acc = [] then .fin else .truncated)).accepts
+      (observe (documentedPolledChunks role H (pre ++ .fin :: post))) := by
+  have hfin : H3.FS.Ev.fin ∉ pre := H3.ReqRecv.noEnd_fin hpre
+  have hup : upToFin (pre ++ .fin :: post) = pre := H3.FS.upToFin_fin pre post hfin
+  obtain ⟨toks, e, htied, _, _, _, hacc⟩ :=
+    C03_polled_lifted_closed role H (pre ++ .fin :: post) hsc (by rw [hup]; exact hraw)
+      (by rw [hup]; exact hH)
+  obtain ⟨he, hk⟩ := tiedS_fin_exact hpre htied hend
+  rw [he, hk] at hacc
+  by_cases ha : acc = []
+  · rw [if_pos ha] at hacc ⊢; exact hacc
+  · rw [if_neg ha] at hacc ⊢; exact hacc
+
+/-- **Re-polling, stream still open.**  The bytes received so far, cut and scheduled in ANY way
+    (chunks and `pend`s in any order, nothing else), no protocol error in them: with every call
+    polled again until the script is used up, the observed outcome is one the recogniser accepts
+    for the frame kinds of ALL the bytes, stream still open — every complete frame has been acted
+    on, every payload byte of a DATA frame still arriving has been handed out, the call in progress
+    is pending. -/
+theorem C03_polled_outcome_open (role : Role) (H : Hdr) (sc : List H3.FS.Ev)
+    (hch : NoEnd sc) (hsc : ScriptOK sc) (hraw : NoRaw (evBytes sc))
+    (hH : HdrsOkK H .head (kindsOf (run frameDec (.hdr []) (evBytes sc)).2))
+    (hlive : (run frameDec (.hdr []) (evBytes sc)).1 ≠ .dead) :
+    (spec (sideOf role) (kindsOf (run frameDec (.hdr []) (evBytes sc)).2) .open_).accepts
+      (observe (documentedPolledChunks role H sc)) := by
+  have hfin : H3.FS.Ev.fin ∉ sc := H3.ReqRecv.noEnd_fin hch
+  have hup : upToFin sc = sc := by
+    have := H3.FS.upToFin_append_of_not_mem sc [] hfin
+    simpa [upToFin] using this
+  obtain ⟨toks, e, htied, _, _, _, hacc⟩ :=
+    C03_polled_lifted_closed role H sc hsc (by rw [hup]; exact hraw) (by rw [hup]; exact hH)
+  obtain ⟨he, hk⟩ := tiedS_open_exact hch htied hlive
+  rw [he, hk] at hacc
+  exact hacc
+
+/-! non-vacuity: the request `wireReq` (HEADERS, DATA(2), trailers, grease; the driver's faithful
+    oracle) delivered byte-wise-ish with polls that find nothing new in between — the one-shot pattern
+    stops at the first `Pending`, the re-polled one delivers everything; an INVALID sequence
+    (HEADERS, DATA(1), GOAWAY) under a schedule with `Pending`s; a stream still open -/
+def polledReq : List H3.FS.Ev :=
+  [.chunk (wireReq.take 1), .pend, .chunk ((wireReq.drop 1).take 9), .pend, .pend,
+   .chunk ((wireReq.drop 10).take 7), .pend, .chunk ((wireReq.drop 17).take 1), .pend,
+   .chunk ((wireReq.drop 18).take 3), .pend, .chunk (wireReq.drop 21), .pend]
+
+example : evBytes polledReq = wireReq := by decide +kernel
+example : observe (documentedChunks .server (H3.Drv.C03.hdrFor .server) (polledReq ++ [.fin])) =
+    { calls := [.pending] } := by decide +kernel
+example : observe (documentedPolledChunks .server (H3.Drv.C03.hdrFor .server) (polledReq ++ [.fin])) =
+    { calls := [.head H3.Drv.C03.blkRequest, .body [0xc1, 0xc2], .bodyEnd, .trailers H3.Drv.C03.blkTrailer] } := by
+  decide +kernel
+example : (spec .server (kindsOf (run frameDec (.hdr []) (evBytes polledReq)).2) (if ([] : List Nat) = [] then .fin else .truncated)).accepts
+    (observe (documentedPolledChunks .server (H3.Drv.C03.hdrFor .server) (polledReq ++ .fin :: []))) :=
+  C03_polled_outcome_fin .server (H3.Drv.C03.hdrFor .server) polledReq [] [] (by decide +kernel) (by decide +kernel)
+    (by decide +kernel) (by decide +kernel) (by decide +kernel)
+-- still open after the same deliveries: everything handed out, `recv_trailers` waits for the end
+example : observe (documentedPolledChunks .server (H3.Drv.C03.hdrFor .server) polledReq) =
+    { calls := [.head H3.Drv.C03.blkRequest, .body [0xc1, 0xc2], .bodyEnd, .pending] } := by decide +kernel
+example : (spec .server (kindsOf (run frameDec (.hdr []) (evBytes polledReq)).2) .open_).accepts
+    (observe (documentedPolledChunks .server (H3.Drv.C03.hdrFor .server) polledReq)) :=
+  C03_polled_outcome_open .server (H3.Drv.C03.hdrFor .server) polledReq (by decide +kernel) (by decide +kernel)
+    (by decide +kernel) (by decide +kernel) (by decide +kernel)
+-- an invalid sequence under a schedule with `Pending`s: HEADERS, DATA(1), GOAWAY, then FIN
+def polledBad : List H3.FS.Ev :=
+  [.chunk [0x01], .pend, .chunk [0x01, 0xaa, 0x00], .pend, .chunk [0x01, 0xc1, 0x07], .pend, .chunk [0x01], .pend,
+   .chunk [0x00]]
+example : observe (documentedPolledChunks .client allOk (polledBad ++ [.fin])) =
+    { calls := [.head [0xaa], .body [0xc1], .connError 261], connError := some 261 } := by decide +kernel
+example : (spec .client (kindsOf (run frameDec (.hdr []) (evBytes polledBad)).2) (if ([] : List Nat) = [] then .fin else .truncated)).accepts
+    (observe (documentedPolledChunks .client allOk (polledBad ++ .fin :: []))) :=
+  C03_polled_outcome_fin .client allOk polledBad [] [] (by decide +kernel) (by decide +kernel)
+    (by decide +kernel) (by decide +kernel) (by decide +kernel)
+-- FIN inside a frame header (the GOAWAY frame lacks its payload): H3_FRAME_ERROR, under the same schedule
+example : observe (documentedPolledChunks .client allOk (polledBad.dropLast ++ [.fin])) =
+    { calls := [.head [0xaa], .body [0xc1], .connError 262], connError := some 262 } := by decide +kernel
+example : (spec .client (kindsOf (run frameDec (.hdr []) (evBytes polledBad.dropLast)).2)
+      (if ([0x07, 0x01] : List Nat) = [] then .fin else .truncated)).accepts
+    (observe (documentedPolledChunks .client allOk (polledBad.dropLast ++ .fin :: []))) :=
+  C03_polled_outcome_fin .client allOk polledBad.dropLast [] [0x07, 0x01] (by decide +kernel) (by decide +kernel)
+    (by decide +kernel) (by decide +kernel) (by decide +kernel)
+-- RESET in the middle of the DATA payload of `wireReq`, polls in between: the prefix version
+example : ∃ toks e, TiedS ((polledReq.take 8) ++ [.reset 9]) toks e ∧ (∀ tok ∈ toks, TokWF tok) ∧
+    HdrsOk (H3.Drv.C03.hdrFor .server) toks ∧
+    documentedPolledChunks .server (H3.Drv.C03.hdrFor .server) ((polledReq.take 8) ++ [.reset 9]) =
+      documentedFrames .server (H3.Drv.C03.hdrFor .server) (fsFuel ({}, (polledReq.take 8) ++ [.reset 9])) toks e ∧
+    (spec .server (toks.map kind) (stopOf e)).accepts
+      (observe (documentedPolledChunks .server (H3.Drv.C03.hdrFor .server) ((polledReq.take 8) ++ [.reset 9]))) :=
+  C03_polled_lifted_closed .server (H3.Drv.C03.hdrFor .server) _ (by decide +kernel) (by decide +kernel)
+    (by decide +kernel)
+example : observe (documentedPolledChunks .server (H3.Drv.C03.hdrFor .server) ((polledReq.take 8) ++ [.reset 9])) =
+    { calls := [.head H3.Drv.C03.blkRequest, .body [0xc1], .resetBy 9] } := by decide +kernel
+
+/-! ## `split()` in the middle of reading
+
+`RequestStream::split` hands the receive half the buffered bytes, the decoder state,
+`remaining_data` and the saved trailers (`St.recvHalf`: nothing the receive calls look at changes).
+In the scenario machine `Sim` — what the correspondence run executes against the real
+`RequestStream::split`, split at every position of a multi-chunk DATA frame and between the end of
+the body and the trailers — a `split` is a call like the others: posted while another call waits
+it waits in the mailbox, posted to a task that has ended or to a resolver it is refused. -/
+
+/-- **Splitting at any point does not change the digest.**  Take ANY scenario (peer events and API
+    calls in any order, any header oracle, either role) and remove every `split` from it — or, read
+    the other way, insert `split` calls ANYWHERE: before, between or behind the receive calls,
+    while a call is pending, several times.  The two runs end with the same stream state (buffered
+    bytes, decoder state, `remaining_data`, saved trailers, error cell, resets sent), the same task
+    life, the same call in progress, and the same log of answers — every `recv_data` piece, the end
+    of the body, the trailers, every error, in the same order — except for the `split` entries
+    themselves. -/
+theorem C03_split_preserves_outcome (H : Hdr) (role : Role) (ops : List Op) :
+    (runOps H { role := role } ops).st = (runOps H { role := role } (ops.filter fun o => !o.isSpCall)).st ∧
+    (runOps H { role := role } ops).alive = (runOps H { role := role } (ops.filter fun o => !o.isSpCall)).alive ∧
+    (runOps H { role := role } ops).inflight =
+      (runOps H { role := role } (ops.filter fun o => !o.isSpCall)).inflight ∧
+    (runOps H { role := role } ops).log.filter notSpL =
+      (runOps H { role := role } (ops.filter fun o => !o.isSpCall)).log.filter notSpL := by
+  have h := runOps_noSp H ops { role := role } { role := role } (SimEq.refl _) (fun _ => rfl) (fun _ => rfl)
+  exact ⟨h.st, h.alive, h.inflight, h.log⟩
+
+/-! non-vacuity: a request whose DATA(3) payload arrives in three chunks; one piece is read on the
+    whole stream, the stream is split inside the frame, the rest and the trailers are read on the
+    receive half (and the stream is split once more before the trailers) -/
+def opsSplit : List Op :=
+  [.ev (.chunk ([0x01, 0x0d] ++ H3.Drv.C03.blkRequest ++ [0x00, 0x03, 0xa1])), .call { cmd := .res, halt := true },
+   .call { cmd := .rd, halt := true }, .call { cmd := .sp }, .ev (.chunk [0xa2]), .ev (.chunk [0xa3]),
+   .ev (.chunk ([0x01, 0x06] ++ H3.Drv.C03.blkTrailer)), .call { cmd := .rda, halt := true }, .call { cmd := .sp },
+   .ev .fin, .call { cmd := .rt }]
+
+example : (runOps (H3.Drv.C03.hdrFor .server) { role := .server } opsSplit).log.reverse =
+    [(.res, .res (.head H3.Drv.C03.blkRequest)), (.rd, .res (.data [0xa1])), (.sp, .ok), (.rd, .res (.data [0xa2])),
+     (.rd, .res (.data [0xa3])), (.rd, .res .end_), (.sp, .ok), (.rt, .res (.trailers H3.Drv.C03.blkTrailer))] := by
+  decide +kernel
+example : ((runOps (H3.Drv.C03.hdrFor .server) { role := .server } (opsSplit.filter fun o => !o.isSpCall)).log.reverse) =
+    [(.res, .res (.head H3.Drv.C03.blkRequest)), (.rd, .res (.data [0xa1])), (.rd, .res (.data [0xa2])),
+     (.rd, .res (.data [0xa3])), (.rd, .res .end_), (.rt, .res (.trailers H3.Drv.C03.blkTrailer))] := by
+  decide +kernel
 
 /-- Why the simulation is `FrameSimP` and not `FrameSim`: for a script with a `Pending` before
     more data NO relation containing the initial configuration is a `FrameSim` between the
